@@ -19,7 +19,8 @@ TRUSTED = ["Tor's SETCONF argument grammar as transcribed in lean/TxV/Spec/KvLin
 ASSUMPTIONS = ["the command queue is idle when set_conf is called (framing by queue_command is C01's subject)"]
 
 ALPHA = ['a', ' ', '\t', '"', '\\', '=', '\r', '\n']
-KEYS = ['Foo', 'SocksPort', 'Log', 'HiddenServicePort', 'a b', '', 'K=', 'Q"', 'T\tx', 'N\nl', 'ORPort']
+KEYS = ['Foo', 'SocksPort', 'Log', 'HiddenServicePort', 'a b', '', 'K=', 'Q"', 'T\tx', 'N\nl', 'Foo\n', 'Foo\r', '\nFoo', 'Foo\r\n', ' Foo', 'Foo ',
+        'Foo\x0b', 'Foo\x0c', 'ORPort']
 
 
 def tor_kvline(line):
@@ -110,6 +111,10 @@ def gen_cases(rng, tier):
     for ln in range(0, n + 1):
         for tup in itertools.product(ALPHA, repeat=ln):
             yield {'args': [['Foo', ['s', ''.join(tup)]]]}
+    # every key of the pool alone and next to a usable pair (a key that cannot be written on one line must be refused)
+    for k in KEYS:
+        yield {'args': [[k, ['s', 'v']]]}
+        yield {'args': [['Log', ['s', 'notice stdout']], [k, ['s', '']]]}
     count = 400 if tier == 'quick' else 20000
     for _ in range(count):
         args = []
